@@ -18,7 +18,7 @@ from . import common
 from .c05 import FragStream
 
 PROPERTY = 'C04'
-LEAN_TARGETS = ['CpProofs.C04', 'CpProofs.C04Sim', 'drv_c04']
+LEAN_TARGETS = ['CpProofs.C04', 'CpProofs.C04Sim', 'CpProofs.C04Hdr', 'drv_c04']
 DRIVER = 'drv_c04'
 THEOREMS = [
     'CpProofs.C04.C04_framing_partial',
@@ -39,6 +39,35 @@ THEOREMS = [
     'CpProofs.C04.readHeaders_lines',
     'CpProofs.C04.findFirst_pre',
     'CpProofs.C04.partsLoop_parts',
+    # the part machinery around the framing (CpModel.MultipartHdr / MultipartN; CpProofs.C04Names2, C04Hdr)
+    'CpProofs.C04.C04_names_field_semicolon',
+    'CpProofs.C04.C04_names_file_semicolon',
+    'CpProofs.C04.splitParams_inquote',
+    'CpProofs.C04.C04_names_escapes',
+    'CpProofs.C04.C04_names_trailing_backslash_quirk',
+    'CpProofs.C04.partsLoopN_plain',
+    'CpProofs.C04.processMultipartN_plain',
+    'CpProofs.C04.C04_framing_with_processors',
+    'CpProofs.C04.C04_partproc_default',
+    'CpProofs.C04.partProc_unlisted',
+    'CpProofs.C04.C04_every_part_default_false',
+    'CpProofs.C04.C04_partproc_inherited',
+    'CpProofs.C04.C04_headers_repeat_join',
+    'CpProofs.C04.C04_headers_continuation',
+    'CpProofs.C04.C04_headers_malformed',
+    'CpProofs.C04.C04_header_names_titled',
+    'CpProofs.C04.C04_attempt_charsets_declared',
+    'CpProofs.C04.C04_decode_400_iff',
+    'CpProofs.C04.C04_decode_first_success',
+    'CpProofs.C04.utf8Strict_encode',
+    'CpProofs.C04.C04_decode_utf8_text',
+    'CpProofs.C04.C04_decode_examples',
+    'CpProofs.C04.C04_filename_star_examples',
+    'CpProofs.C04.C04_filename_star_overrides',
+    'CpProofs.C04.C04_form_entry_file',
+    'CpProofs.C04.C04_form_entry_field',
+    'CpProofs.C04.C04_form_entry_unnamed',
+    'CpProofs.C04.C04_stored_in_file_iff',
 ]
 LEVEL = 'proof'
 TECHNIQUE = ('Lean 4 proof: loop invariant of Part.read_lines_to_boundary (deferred line terminator) by induction '
@@ -215,6 +244,8 @@ def serialize(case):
     if case.get('trailing_crlf', True):
         out += b'\r\n'
     out += bytes.fromhex(case.get('epilogue_hex', ''))
+    if case.get('cut'):
+        out = out[:max(0, len(out) - case['cut'])]      # a truncated body (malformed: compared with the model only)
     return bytes(out)
 
 
@@ -247,7 +278,7 @@ def _field_text(p):
 def is_loose(case):
     """Some part uses a header shape / charset declaration / content type the statement does not speak about:
     such a case is judged by the comparison with the model only (and by the bound on the connection)."""
-    return any(p.get('loose') for p in case['parts'])
+    return bool(case.get('cut')) or any(p.get('loose') for p in case['parts'])
 
 
 def expected(case):
@@ -487,7 +518,7 @@ def parse_model(line, case):
                 if dtext == 'U':
                     bad = bad or 'decode'
                     continue
-                e = ['field', _str(_points(dtext[1:]))]
+                e = ['field', content.decode('latin-1') if dtext == 'T=' else _str(_points(dtext[1:]))]
             else:
                 e = None
         else:
@@ -795,6 +826,8 @@ def gen_case(rng, big=False):
             'quote_boundary': rng.random() < 0.3 or ' ' in boundary or ',' in boundary}
     if rng.random() < 0.15:
         case['mkfile'] = 'custom'   # the part class overrides make_file()
+    if rng.random() < 0.03 and n < 5000:
+        case['cut'] = rng.choice([1, 2, 3, 5, 9, rng.randint(1, max(1, n // 2))])
     if rng.random() < 0.1:
         case['chunked'] = True      # no declared length: the body ends where the connection ends
         case['beyond_hex'] = ''
@@ -806,7 +839,8 @@ def gen_case(rng, big=False):
 # ----------------------------------------------------------------------------------------------
 CD_ATOMS = ['form-data', 'name=', 'filename=', 'filename*=', '"', '"', ';', '; ', '=', ' ', '\\', '\\"', 'a', 'b c', 'x.txt',
             ',', "UTF-8''", "iso-8859-1'en'", "bogus''", "'", '%41', '%e2%82%ac', '%ff', '%', 'caf\xe9', 'NAME=', '\t',
-            'name="a"', 'filename="f;g"', '"q\\"r"', 'attachment']
+            'name="a"', 'filename="f;g"', '"q\\"r"', 'attachment', 'name="\\"a\\""', 'filename="\\"f\\""',
+            'name="\\"a\\"";', 'filename="\\"\\"";']
 HDR_LINE_ATOMS = ['X-A: 1\r\n', 'x-a: 2\r\n', 'Content-Type: text/plain\r\n', ' folded\r\n', '\tfolded more \r\n',
                   'content-TYPE:image/png\r\n', 'NoColon\r\n', 'X-B:\r\n', ': empty-name\r\n', 'X-C: a:b\r\n',
                   'X-A: 3\n', 'X-D: caf\xe9\r\n', 'x1-y2: v\r\n', 'X-A : spaced \r\n', '\r\n']
@@ -916,6 +950,34 @@ def check_units(ctx, cases, compare=True, stats=True):
             ctx.disagree(case, impl, m, 'part machinery (%s): code and model differ' % {
                 'cd': 'Content-Disposition name / filename / filename*', 'dec': 'field value decoding',
                 'hdr': 'read_headers'}[case['kind']])
+
+
+def gen_longline_cases(rng, count):
+    """Lines whose length sits on the limit of `fp.readline(1 << 16)`: k - 2 .. k + 2 for k = 64 KiB and 128 KiB, as
+    the last line of a part (directly in front of the CRLF of the delimiter) or in its middle, terminated by CRLF /
+    LF / nothing; field, file or unnamed part; buffer sizes around the limit."""
+    out = []
+    for _ in range(count):
+        k = rng.choice([65536, 65536, 131072]) + rng.choice([-2, -1, -1, 0, 1, 2])
+        fill = rng.choice([b'L', b'-', b'\r'])
+        line = fill * k
+        head = rng.choice([b'', b'', b'ab\r\n', b'\n', b'--\r\n'])
+        tail = rng.choice([b'', b'', b'', b'\r\nend', b'\n', b'\r\n', b'\r'])
+        content = head + line + tail
+        kind = rng.choice(['field', 'file', 'file', 'unnamed'])
+        p = {'name': None if kind == 'unnamed' else rng.choice(['a', 'file']), 'ctype': None,
+             'filename': 'f.bin' if kind == 'file' else None, 'content_hex': content.hex()}
+        parts = [p]
+        if rng.random() < 0.5:
+            parts.append({'name': 'z', 'filename': None, 'ctype': None, 'content_hex': b'after'.hex()})
+        if rng.random() < 0.3:
+            parts.insert(0, {'name': 'y', 'filename': None, 'ctype': None, 'content_hex': b'before'.hex()})
+        bufsize = rng.choice([1024, 8192, 65535, 65536, 65537, 70000])
+        frag = rng.choice([[], [], [rng.choice([100, 5000, 65535]) for _ in range(40)]])
+        out.append({'boundary': rng.choice(['B', 'XX']), 'parts': parts, 'preamble_hex': '', 'epilogue_hex': '',
+                    'trailing_crlf': True, 'beyond_hex': rng.choice(['', '5a']), 'bufsize': bufsize, 'frag': frag,
+                    'maxram': rng.choice([1000, 100000, 200000]), 'subtype': 'form-data', 'quote_boundary': False})
+    return out
 
 
 def enum_small():
@@ -1035,7 +1097,7 @@ def _gen_batch(args):
     seed, n = args
     import random
     rng = random.Random(seed)
-    return [gen_case(rng, big=(i % 25 == 24)) for i in range(n)]
+    return [gen_case(rng, big=(i % 25 == 24)) for i in range(n)] + gen_longline_cases(rng, 30)
 
 
 def _worker(args):
@@ -1045,7 +1107,27 @@ def _worker(args):
     return w.cases, w.hist, w.kept_fails(), w.disagreements[:20], w.ncompared, w.driver.lines
 
 
+ANCHORED = ['process_multipart', 'process_multipart_form_data', '_old_process_multipart', 'Entity.__init__',
+            'Entity.fullvalue', 'Entity.decode_entity', 'Entity.process', 'Entity.make_file', 'Part']
+
+
 def run(ctx):
+    from . import c05_cov
+    c05_cov.start()
+    try:
+        _run(ctx)
+        if not ctx.quick():
+            import random
+            rng = random.Random(ctx.seed)
+            check_cases(ctx, [gen_case(rng, big=(i % 50 == 49)) for i in range(800)], compare=False, stats=False)
+            check_units(ctx, [gen_unit(rng) for _ in range(1500)], compare=False, stats=False)
+        from cherrypy import _cpreqbody
+        ctx.extra['anchored_lines_not_executed'] = c05_cov.not_executed(_cpreqbody, ANCHORED)
+    finally:
+        c05_cov.stop()
+
+
+def _run(ctx):
     for e in ctx.known:
         if e.get('witness'):
             check_cases(ctx, [e['witness']], stats=False)
@@ -1053,6 +1135,7 @@ def run(ctx):
     if ctx.quick():
         cases = [gen_case(ctx.rng, big=(i % 50 == 49)) for i in range(2000)]
         check_cases(ctx, cases)
+        check_cases(ctx, gen_longline_cases(ctx.rng, 16))
         check_units(ctx, [gen_unit(ctx.rng) for _ in range(3000)])
     else:
         from .c05 import merge_worker
